@@ -37,7 +37,6 @@ type c12Harness struct {
 	sc        *C12Scenario
 	ld        *C12Loaded
 	factory   *SamplerFactory
-	met       *metrics.MockMetrics
 	peers     *C12Peers
 	namer     *C12Namer
 	reloadSig bool
@@ -89,11 +88,9 @@ func (h *c12Harness) Reset(init map[string]any) error {
 	}
 	// InMemCollector.sendReloadSignal: non-blocking send on a channel of capacity 1
 	h.onLoad = func() { h.reloadSig = true }
-	h.met = &metrics.MockMetrics{}
-	h.met.Start()
 	h.peers = &C12Peers{}
 	h.peers.Set(1)
-	h.factory = &SamplerFactory{Config: ld.Cfg, Logger: &logger.NullLogger{}, Metrics: h.met, Peers: h.peers}
+	h.factory = &SamplerFactory{Config: ld.Cfg, Logger: &logger.NullLogger{}, Metrics: &metrics.NullMetrics{}, Peers: h.peers}
 	if err := h.factory.Start(); err != nil {
 		return err
 	}
@@ -189,17 +186,13 @@ func (h *c12Harness) Project() (any, error) {
 			s, ok := h.local[w][h.sc.Names[d]]
 			views := []any{}
 			if ok {
-				views = h.namer.View(h.factory, s, &bad)
+				views = h.namer.View(s, h.clears, &bad)
 			}
 			per[d] = map[string]any{"c": ok, "s": views}
 		}
 		local[w] = per
 	}
-	unique := 0
-	if v, ok := h.met.Get("unique_dynsampler_count"); ok {
-		unique = int(v)
-	}
-	out := map[string]any{"local": local, "unique": unique}
+	out := map[string]any{"local": local}
 	if len(bad) > 0 {
 		out["bad"] = bad
 	}
